@@ -84,10 +84,12 @@ def bindS (L : Lang) (ord : List Nat → List Nat) : Nat → Store → Nat → T
           let σ := setCset σ ti.cset (unionSorted (getCset σ ti.cset) (getCset σ i.cset))
           let σ := setVar σ v { (getVar σ v) with cset := ti.cset }
           let σ := setVar σ tv { (getVar σ tv) with wildcard := false }
-          match (match i.lower with | some l => aboveS L ord n σ tv l | none => .ok σ) with
+          -- fix: the bounds are handed over through `unify`, which follows `t` (a constraint re-check
+          -- triggered by the first bound may already have resolved it)
+          match (match i.lower with | some l => unifyS L ord n σ (.app l []) (.var tv) true false false | none => .ok σ) with
           | .error e => .error e
           | .ok σ =>
-            match (match i.upper with | some u => belowS L ord n σ tv u | none => .ok σ) with
+            match (match i.upper with | some u => unifyS L ord n σ (.var tv) (.app u []) true false false | none => .ok σ) with
             | .error e => .error e
             | .ok σ => checkConstraintsS L ord n σ v
       | .app o args =>
@@ -324,7 +326,7 @@ def instantiateS (L : Lang) (ord : List Nat → List Nat) (fuel : Nat) (σ : Sto
   let σ := allocVars σ s.nvars s.nwild
   match addConstraintsS L ord fuel base σ s.constraints with
   | .error e => .error e
-  | .ok σ1 => fixS L ord fuel σ1 (s.body.shift base) true
+  | .ok σ1 => fixS L ord fuel σ1 (spineFollow σ1 (s.body.shift base)) true
 
 /-- `Type.apply(self=f, arg=x, fix)` (type.py:134-157) -/
 def applyTS (L : Lang) (ord : List Nat → List Nat) (fuel : Nat) (σ : Store) (f x : Term) (fixFlag : Bool := true) : Except Err (Store × Term) :=
